@@ -103,7 +103,20 @@ def main():
             judged('no-legacy-random', not rw.legacy,
                 f'{what}: numpy.random legacy functions called from teneva: '
                 f'{rw.legacy}')
-        # same call again: bit-identical
+        # same call again: bit-identical - after the caller has used the first
+        # result the way callers do (shuffled / shifted it IN PLACE): a result
+        # handed out from a memo would come back edited
+        nscr = 0
+        for _, a in sanit.walk_arrays(res):
+            if a.flags.writeable and a.size and a.dtype.kind in 'iuf':
+                try:
+                    np.copyto(a, np.flip(a.copy()) + (np.arange(a.size)
+                        .reshape(a.shape) % 3 + 1).astype(a.dtype))
+                    nscr += 1
+                except Exception:
+                    pass
+        if nscr:
+            event('first-result-edited-in-place-before-repeat')
         res2, _, _ = run(call, teneva, seed)
         judged('repeatable', sanit.canon_hash(res2) == rec['hash'],
             f'{what}: two identical calls returned different results')
